@@ -41,6 +41,11 @@ use tu_verif::run::Run;
 const SYMBOLS: [&str; 8] = ["a", "ä", "😀", "e\u{301}", "\u{1F1E9}", "\u{1F1EA}", "\u{1100}", "\u{1161}"];
 const N_BASE: usize = 4;
 const B_ALPHA: [&str; 5] = ["a", " ", "\t", "ä", "\u{a0}"];
+/// second families: characters next to the boundary of the White_Space class -- ASCII controls below
+/// U+0020 that are not White_Space (U+0001, U+001F), ZERO WIDTH SPACE (not White_Space, next to
+/// U+200A which is) -- and for part (b) also NEL (U+0085, White_Space, next to the C1 controls)
+const EDGE_SYMBOLS: [&str; 4] = ["a", "\u{1}", "\u{1f}", "\u{200b}"];
+const EDGE_B_ALPHA: [&str; 5] = ["\u{1}", " ", "\u{200b}", "\u{85}", "\u{1f}"];
 const D9: &str = "D9-cluster-sequence-differs";
 
 fn uses_probe_symbol(s: &str) -> bool {
@@ -48,9 +53,13 @@ fn uses_probe_symbol(s: &str) -> bool {
 }
 
 fn build(w: &[usize], gaps: u32) -> String {
+    build_from(&SYMBOLS, w, gaps)
+}
+
+fn build_from(symbols: &[&str], w: &[usize], gaps: u32) -> String {
     let mut s = String::new();
     for (i, c) in w.iter().enumerate() {
-        s.push_str(SYMBOLS[*c]);
+        s.push_str(symbols[*c]);
         if i + 1 < w.len() && (gaps >> i) & 1 == 1 {
             s.push(' ');
         }
@@ -228,7 +237,21 @@ fn main() {
     let ws = sequences(SYMBOLS.len(), max_w);
     let bs = strings(&B_ALPHA, max_len);
     let n_a = ws.len() as u64;
+    let ews = sequences(EDGE_SYMBOLS.len(), max_w);
+    let ebs = strings(&EDGE_B_ALPHA, max_len.min(4));
+    let n_e = n_a + bs.len() as u64;
     if let Some(n) = run.describe_unit() {
+        if n >= n_e {
+            let k = (n - n_e) as usize;
+            if let Some(w) = ews.get(k) {
+                println!("{}", json!({"part": "a (edge symbols)", "w": w.iter().map(|i| EDGE_SYMBOLS[*i]).collect::<Vec<_>>(), "pairs": "every pair of gap vectors x use_graphemes"}));
+            } else if let Some(s) = ebs.get(k - ews.len()) {
+                println!("{}", json!({"part": "b (edge alphabet)", "s": s, "operations": "every operation sequence of length n-1, n, n+1 x use_graphemes"}));
+            } else {
+                println!("{}", json!({"error": "no such unit"}));
+            }
+            return;
+        }
         if n < n_a {
             let w: Vec<&str> = ws[n as usize].iter().map(|i| SYMBOLS[*i]).collect();
             println!("{}", json!({"part": "a", "w": w, "pairs": "every pair of gap vectors (a single U+0020 or nothing between neighbouring symbols) x use_graphemes"}));
@@ -248,6 +271,9 @@ fn main() {
     run.bounds.insert("b_max_symbols".into(), json!(max_len));
     run.bounds.insert("b_strings".into(), json!(bs.len()));
     run.bounds.insert("b_operation_sequences".into(), json!("all 3^m sequences over {Keep, Insert, Delete} for m in {n-1, n, n+1}, n = number of characters"));
+    run.bounds.insert("edge_a_symbols".into(), json!(EDGE_SYMBOLS));
+    run.bounds.insert("edge_b_alphabet".into(), json!(EDGE_B_ALPHA));
+    run.bounds.insert("edge_b_max_symbols".into(), json!(max_len.min(4)));
     run.bounds.insert("use_graphemes".into(), json!([false, true]));
     run.extra.insert(
         "rule".into(),
@@ -275,9 +301,25 @@ fn main() {
             }
         }
     }
-    // ---- part (b)
-    for (is, s) in bs.iter().enumerate() {
-        if !run.unit(n_a + is as u64) {
+    // ---- part (a), edge symbols
+    for (iw, w) in ews.iter().enumerate() {
+        if !run.unit(n_e + iw as u64) {
+            continue;
+        }
+        let k = w.len().saturating_sub(1) as u32;
+        for g1 in 0..(1u32 << k) {
+            let from = build_from(&EDGE_SYMBOLS, w, g1);
+            for g2 in 0..(1u32 << k) {
+                let to = build_from(&EDGE_SYMBOLS, w, g2);
+                for g in [false, true] {
+                    check_a(&mut run, &from, &to, g);
+                }
+            }
+        }
+    }
+    // ---- part (b): the main alphabet, then the edge alphabet
+    for (is, s) in bs.iter().enumerate().map(|(i, s)| (n_a + i as u64, s)).chain(ebs.iter().enumerate().map(|(i, s)| (n_e + (ews.len() + i) as u64, s))) {
+        if !run.unit(is) {
             continue;
         }
         if run.out_of_time() {
